@@ -587,8 +587,10 @@ def stage_traces(ctx):
     q = ctx.quick
     traces = record_traces(ctx.seed * 7919 + 17, 240 if q else 2000, nets, 300 if q else 1200)
     from ..par import split
+    accepted = []
     for ci, chunk in enumerate(split(traces, max(1, len(traces) // 750))):
         rej, r = validate_traces(ctx, chunk)
+        accepted += [t for i, t in enumerate(chunk) if i not in rej][:2]
         ctx.traces += len(chunk) - len(rej)
         ctx.case(None, sum(len(t["ev"]) for t in chunk))
         if ci == 0:
@@ -603,7 +605,7 @@ def stage_traces(ctx):
                      "recorded %s.msg session is not a behaviour of MsgText/Trace_MsgSign (%s): message %r" % (t["sym"], why, drv.text_of(t["msg"])[:60]),
                      {"trace": t})
     # binding self-test: corrupt single logged fields of accepted traces
-    good = [t for t in traces[:40]][:1]
+    good = accepted[:1]        # (when the implementation is broken there may be none: nothing to self-test then)
     if good:
         g = good[0]
         b1 = copy.deepcopy(g)      # header byte of the signature text
@@ -715,12 +717,37 @@ def stage_model(ctx):
     r = ctx.tlc("MC_MsgText", "MC_MsgText_digest_plain", expect_ok=False, count=False)
     ctx.selftest("model_rejects_unprefixed_preimage", (not r.ok) and r.violated == "Holds")
     # EC side, per toy curve: every key x digest x nonce; every (digest, r, s) x recovery id
-    for cname in (("p43", "p103") if q else ("p43", "p83", "p103")):
-        for mode in ("sign", "recover"):
-            ctx.tlc("MC_MsgSign", "MC_MsgSign_%s_%s_%s" % (cname, mode, t), timeout=3000)
+    runs = [("p43", "sign"), ("p43", "recover"), ("p103", "sign")] if q else \
+           [(c, m) for c in ("p43", "p83", "p103") for m in ("sign", "recover")]
+    for cname, mode in runs:
+        ctx.tlc("MC_MsgSign", "MC_MsgSign_%s_%s_%s" % (cname, mode, t), timeout=3000)
 
 
 STAGES = [("vectors", stage_vectors), ("model", stage_model), ("toy", stage_toy), ("net", stage_net), ("traces", stage_traces)]
+
+
+def replay(ctx, obj):
+    """./check C17 --replay FILE: re-run exactly the recorded case"""
+    d = obj.get("detail") or {}
+    print("key :", obj.get("key"))
+    print("what:", obj.get("what"))
+    if "curve" in d and "rec" in d:
+        cname = {v: k for k, v in CURVES.items()}.get(tuple(d["curve"]), "toy")
+        fails, _ = _toy_chunk(((cname, tuple(d["curve"])), [d["rec"]]))
+        for key, what, det in fails:
+            print("now :", key)
+            if key == obj.get("key"):
+                ctx.fail(key, what, det)
+        if not fails:
+            print("now : pycoin agrees with the spec on this case")
+    elif "text" in d and "pair" in d:
+        net = drv.network("BTC")
+        rec = d["rec"]
+        print("BTC.msg.verify(<key of pair %s>, %r, <message %d of MC_MsgNetReplay>) is demanded to be %s" % (d["pair"], d["text"], rec["msg"], rec["exp"]))
+        print("(re-run `./check C17 --only net` to execute it: the message text comes from TLC)")
+    else:
+        print(json.dumps(d, indent=1)[:4000])
+        print("(re-run `./check C17 --only net,traces` to execute it: networks and messages come from TLC / the seed)")
 
 
 def run(ctx):
